@@ -44,7 +44,7 @@ def main():
                 "| fix commit | property | defect | suite on the copy | reported by checks | by its property's check |\n|---|---|---|---|---|---|\n")
         f.write("\n".join(rows) + "\n")
     srows = []
-    for d in sorted(glob.glob(os.path.join(VERIF, "seeded", "C*"))):
+    for d in sorted(glob.glob(os.path.join(VERIF, "seeded", "C*")) + glob.glob(os.path.join(VERIF, "seeded", "R2-C*"))):
         name = os.path.basename(d)
         mp = os.path.join(d, "meta.json")
         meta = load(mp) or {}
@@ -58,7 +58,7 @@ def main():
             meta["confirmed"]["demo_fails_with_change"] = r.get("demo_fails_with_change")
             meta["confirmed"]["demo_passes_without_change"] = r.get("demo_passes_without")
             json.dump(meta, open(mp, "w"), indent=1)
-        prop = meta.get("property", name[:3])
+        prop = meta.get("property", name[-6:-3])
         first = meta.get("caught_by_first_evaluation") or []
         now = meta.get("caught_by") or []
         srows.append(f"| {name} | {meta.get('summary', '')[:100]} | {', '.join(first) or '-'} | {', '.join(now) or '-'} | {'yes' if prop in now else 'NO'} |")
